@@ -132,6 +132,14 @@ def radius_seeds():
         for e in range(0, 8):
             for a in sorted(set([0, 1, 4, (i + e) & 0xf])):
                 put("radius", "%s-e%d-a%x" % (k, e, a), e | (a << 4), v)
+    # Access-Requests whose User-Password value has every interesting length (radius_pkt_chk accepts 16..128, the
+    # un-hiding works on whole 16-octet blocks): last attribute and followed by another one, for the verify entry
+    for n in (16, 17, 18, 24, 31, 32, 33, 47, 48, 49, 100, 127, 128):
+        val = bytes((0x40 + 7 * j) & 0xff for j in range(n))
+        for tail in (b"", rad_attr(4, bytes([10, 0, 0, 1]))):
+            v = rad_pkt(1, 7, auth, rad_attr(1, b"bob") + rad_attr(2, val) + tail)
+            for a in (0, 2, 8):
+                put("radius", "access_request_pwlen%d-%s-e4-a%x" % (n, "last" if not tail else "mid", a), 4 | (a << 4), v)
 
 
 # ------------------------------------------------------------------ DHCPv4
